@@ -325,6 +325,67 @@ pub fn redim_programs() -> Vec<(Prog, String)> {
     out
 }
 
+/// REDIM inside a SUB: of an array that the module declared SHARED (the module's array gets the new bounds and
+/// every subprogram sees them) and of a name the module did not share (a local array).
+pub fn redim_in_sub_programs() -> Vec<(Prog, String)> {
+    let mut out = vec![];
+    for elem in [Elem::Scalar(Ty::Int), Elem::Scalar(Ty::Str)] {
+        for shared in [true, false] {
+            for first_with_dim in [false, true] {
+                if first_with_dim && !shared {
+                    continue;
+                }
+                let mut b = B::new();
+                let s1 = Shape { dims: vec![(1, 3)], explicit: true };
+                let s2 = Shape { dims: vec![(5, 2)], explicit: true };
+                let mut d = dim_stmt(&mut b, "A", &s1, elem);
+                if let K::Dim { redim, shared: sh, .. } = &mut d.k {
+                    // REDIM SHARED A(..), or DIM SHARED of a dynamic array is not expressible: both spell REDIM
+                    *redim = true;
+                    *sh = shared;
+                }
+                let an = arr_name("A", elem);
+                let mut main = vec![d];
+                for (loc, val) in cell_writes("A", elem, &[1], 1) {
+                    main.push(b.assign(loc, val));
+                }
+                main.push(b.s(K::Call("Grow".into(), vec![])));
+                main.push(b.print(vec![st("m"), builtin("LBOUND", vec![var(&an)]), builtin("UBOUND", vec![var(&an)])]));
+                if shared {
+                    main.push(b.print(vec![st("m5"), st("["), Expr::Index(an.clone(), vec![num(5)]), st("]")]));
+                } else {
+                    main.push(b.print(vec![st("m1"), st("["), Expr::Index(an.clone(), vec![num(1)]), st("]")]));
+                }
+                main.push(b.s(K::Call("Show".into(), vec![])));
+                // SUB Grow re-dimensions A and fills the new cells
+                let mut g = dim_stmt(&mut b, "A", &s2, elem);
+                if let K::Dim { redim, .. } = &mut g.k {
+                    *redim = true;
+                }
+                let mut body = vec![g];
+                for (k, cell) in cells(&s2).iter().enumerate() {
+                    for (loc, val) in cell_writes("A", elem, cell, 40 + k as i64) {
+                        body.push(b.assign(loc, val));
+                    }
+                }
+                body.push(b.print(vec![st("g"), builtin("LBOUND", vec![var(&an)]), builtin("UBOUND", vec![var(&an)])]));
+                let id = b.id();
+                let grow = SubDef { id, name: "Grow".into(), is_function: false, params: vec![], body, is_static: false };
+                // SUB Show reads the shared array (only when it is shared)
+                let body = if shared {
+                    vec![b.print(vec![st("s"), builtin("UBOUND", vec![var(&an)]), st("["), Expr::Index(an.clone(), vec![num(6)]), st("]")])]
+                } else {
+                    vec![b.print(vec![st("s")])]
+                };
+                let id = b.id();
+                let show = SubDef { id, name: "Show".into(), is_function: false, params: vec![], body, is_static: false };
+                out.push((Prog { main, subs: vec![grow, show], declare: true, ..Default::default() }, format!("REDIM inside a SUB, {:?}, {}", elem, if shared { "array SHARED by the module" } else { "name not shared: a local array" })));
+            }
+        }
+    }
+    out
+}
+
 /// Subscripts that are variables first used in the subscript itself (implicit variables, value 0), in every
 /// kind of element path: plain element, element of an array of records, nested record, fixed-length string.
 pub fn implicit_index_program() -> Prog {
